@@ -18,8 +18,8 @@ vertex_loader.rs, edge.rs, vertex.rs}` and `util/fs/{read_utils.rs, fs_utils.rs}
   after the whole edge file was read is a `DatasetError`.  `edges` is the rows in file order;
   `vertices` is the vertex rows in file order; the declared/scanned *edge* count only sizes a progress
   bar.  After both files are read, `graph_from_files` rejects (`DatasetError`) an edge list, then a
-  vertex list, whose ids are not their row numbers.  The number of vertex rows is NOT compared with
-  the declared/scanned vertex count.
+  vertex list, whose ids are not their row numbers, and finally an edge with an endpoint at or beyond
+  the number of vertex rows (the tables may have been sized by a larger declared/scanned count).
 * file decoding (csv, gzip, line counting) is NOT modelled: a file is abstracted as `CsvFile`
   (can it be opened, how many text lines does `line_count` see, which records does the csv reader yield
   and which of them fail to decode).
@@ -258,6 +258,10 @@ def idsAreRowsFrom : Nat → List Nat → Bool
 
 def idsAreRows (ids : List Nat) : Bool := idsAreRowsFrom 0 ids
 
+/-- `edges.iter().find(|e| e.src >= n || e.dst >= n).is_none()` -/
+def endpointsWithin {α : Type} (es : List (Edge α)) (n : Nat) : Bool :=
+  es.all (fun e => decide (e.src < n) && decide (e.dst < n))
+
 /-- `Graph::from_files` / `graph_loader::graph_from_files`, in the code's order of evaluation -/
 def graphFromFiles {α : Type} (ef : CsvFile (Edge α)) (vf : CsvFile (Vertex α))
     (nEdges nVertices : Option Nat) : Except LoadErr (Graph α) :=
@@ -278,6 +282,8 @@ def graphFromFiles {α : Type} (ef : CsvFile (Edge α)) (vf : CsvFile (Vertex α
           | .ok vs =>
             if idsAreRows (es.map Edge.edgeId) = false then .error .dataset
             else if idsAreRows (vs.map Vertex.vertexId) = false then .error .dataset
+            -- every edge must join two vertex ROWS (the tables may be larger than the vertex file)
+            else if endpointsWithin es vs.length = false then .error .dataset
             else .ok (buildGraph es vs nV)
 
 /-- a per-edge table (speeds, grades, headings, road classes): row `i` of the file belongs to edge
